@@ -1,19 +1,29 @@
 /-
 C06 — Condition variable semantics.
 
-Every theorem below is about the transliterated kernel functions at an ARBITRARY world state (any number of actors,
+Part 1 (older, step level): theorems about the transliterated kernel functions at an ARBITRARY world state (any number of actors,
 condition variables and mutexes, any queues), hence for every history that leads to that state.
 notify_one/notify_all are single simcalls, so "the waiters at that moment" is the queue in the state they run in.
 Timeouts: "the timeout action of a's wait finishes" is the explicit input event `condTimeout` (the clock is not in the
 model; the correspondence driver feeds the event at call + t exactly).  MC split path: CONDVAR_ASYNC_LOCK /
 CONDVAR_WAIT / MUTEX_WAIT are modelled and checked by correspondence (no timeout under MC: `mc_timeout_` not modelled).
+
+Part 2 (history level, end of the file): REFINEMENT to the abstract condition variable of C06/Spec.lean (state: per
+condition variable the FIFO of waiters with their mutexes; per mutex its owner and the FIFO of blocked lockers).
+`cond_refines_spec`: every history of lock / try_lock / unlock / wait / wait_for / notify_one / notify_all / timer events
+accepted by the abstract machine is executed by the implementation model with the same answers in the same order and
+related states (`Abs`), and the invariant `AInv` holds (`impl_step_is_spec_step`, `spec_error_is_impl_error`: the
+converse direction and the error branches).  On top of it, at EVERY state reached by a history:
+`notify_one_wakes_exactly_head`, `notify_all_wakes_exactly_current_waiters`, `notify_all_mutex_fifo_order`,
+`timeout_wakes_only_its_waiter`,
+`wait_returns_holding_mutex_hist` (whoever is answered while blocked owns the mutex it waited for),
+`free_mutex_has_no_waiter` (a waiter that re-acquires a free mutex overtakes nobody).
+Domain: non-recursive mutexes (world `w0`); events of blocked actors and the re-lock of a mutex by its owner are outside
+(`illFormed` in the abstract machine).
 -/
-import SgVerif.C06.Model
-import SgVerif.C04.Lemmas
+import SgVerif.C06.Refine
 namespace SgVerif.C06
 open SgVerif.Sync
-
-@[simp] theorem upd_same {β : Type} (f : Nat → β) (i : Nat) (v : β) : upd f i v i = v := by simp [upd]
 
 theorem waitFor_some {m : Mutex} {a : Aid} {r r' : Res} (h : (m.waitFor a r).2 = some r') :
     r' = r ∧ m.owner = some a ∧ (m.waitFor a r).1 = m := by
@@ -197,5 +207,205 @@ example : observe [.lock 1 0, .condWait 1 0 0 false, .lock 2 0, .condWait 2 0 0 
 /-- a timed wait whose timer fires: timeout reported, after re-acquiring the mutex -/
 example : observe [.lock 1 0, .condWait 1 0 0 true, .condTimeout 1 0, .signal 0 0] 0 0 =
     some ([], some 1, [], [(1, .unit), (1, .flag true), (0, .unit)]) := by decide
+
+/-! ## Part 2 — refinement to the abstract condition variable, whole histories -/
+
+/-- **Refinement, every history.**  Whatever history the abstract condition-variable machine accepts, the
+implementation model (ConditionVariableImpl + MutexImpl as composed by the S4U calls) executes it with the same answers
+in the same order; the kernel state it reaches means the abstract state reached (`Abs`: queues are the FIFOs of
+waiters/lockers, every acquisition registered); and the invariant `AInv` holds there. -/
+theorem cond_refines_spec (es : List CEv) (s : ASt) (o : Outs) (h : arun ASt.init es = .ok (s, o)) :
+    ∃ w, w0.run (es.map CEv.toEv) = .ok (w, o) ∧ Abs w s ∧ AInv s :=
+  sim_run es abs_init ainv_init h
+
+/-- converse direction, at every reached state: what the implementation does on an event of the domain is what the
+abstract machine does (same answers), and the states stay related -/
+theorem impl_step_is_spec_step {w w' : World} {s : ASt} (hr : Reach w s) (e : CEv) (o : Outs)
+    (hwf : WellFormed s e) (hw : w.step e.toEv = .ok (w', o)) :
+    ∃ s', astep s e = .ok (s', o) ∧ Abs w' s' ∧ AInv s' := by
+  obtain ⟨ha, hi⟩ := reach_abs hr
+  obtain ⟨s', hs, ha'⟩ := sim_step_conv ha hi hwf hw
+  exact ⟨s', hs, ha', ainv_step hi hs⟩
+
+/-- the error branches agree: ownership assertion of wait / unlock, timer event without an armed timer -/
+theorem spec_error_is_impl_error {w : World} {s : ASt} (hr : Reach w s) (e : CEv) (err : Err)
+    (hs : astep s e = .error err) (hne : err ≠ .illFormed) : w.step e.toEv = .error err :=
+  sim_step_err (reach_abs hr).1 hs hne
+
+/-- **notify_one wakes exactly the head**, after every history: the longest waiter leaves the queue (the others keep
+their order, other condition variables are untouched); it returns now (`false` = no timeout) iff its mutex is free, and
+then it owns it; otherwise nobody but the notifier is answered and the waiter is at the TAIL of the FIFO of its mutex,
+registered, with its result attached (it returns at the hand-off, `wait_returns_holding_mutex_hist`). -/
+theorem notify_one_wakes_exactly_head {w : World} {s : ASt} (hr : Reach w s) (a : Aid) (c : Nat)
+    (hb : s.blk a = none) (x : AWaiter) (rest : List AWaiter) (hq : s.cv c = x :: rest) :
+    ∃ w' o, w.step (.signal a c) = .ok (w', o) ∧
+      (w'.conds c).queue = rest.map concW ∧ (∀ c', c' ≠ c → (w'.conds c').queue = (w.conds c').queue) ∧
+      ((w.mutexes x.mutex).owner = none →
+        o = [(x.issuer, .flag false), (a, .unit)] ∧ (w'.mutexes x.mutex).owner = some x.issuer ∧
+        (w'.mutexes x.mutex).queue = (w.mutexes x.mutex).queue) ∧
+      (∀ b, (w.mutexes x.mutex).owner = some b →
+        o = [(a, .unit)] ∧ (w'.mutexes x.mutex).owner = some b ∧
+        (w'.mutexes x.mutex).queue = (w.mutexes x.mutex).queue ++ [concM (x.issuer, .flag false)]) := by
+  obtain ⟨ha, hi⟩ := reach_abs hr
+  have hs : astep s (.notifyOne a c) =
+      .ok ((({ s with cv := upd s.cv c rest } : ASt).acquire x.issuer x.mutex (.flag false)).1,
+           (({ s with cv := upd s.cv c rest } : ASt).acquire x.issuer x.mutex (.flag false)).2 ++ [(a, .unit)]) := by
+    simp [astep, hb, hq]
+  obtain ⟨w', hw, ha'⟩ := sim_step ha hi hs
+  refine ⟨w', _, hw, ?_, ?_, ?_, ?_⟩
+  · rw [ha'.cq, acquire_cv]; simp
+  · intro c' hc
+    rw [ha'.cq, acquire_cv, ha.cq]
+    simp [upd_ne _ _ hc]
+  · intro hfree
+    have hf : (({ s with cv := upd s.cv c rest } : ASt).mx x.mutex).owner = none := by
+      rw [← hfree, ha.own]
+    obtain ⟨h1, h2, h3, -⟩ := acquire_free _ x.issuer x.mutex (.flag false) hf
+    refine ⟨by rw [h1]; rfl, by rw [ha'.own, h3], ?_⟩
+    rw [ha'.mq, h2, ha.mq]
+  · intro b hbusy
+    have hf : (({ s with cv := upd s.cv c rest } : ASt).mx x.mutex).owner = some b := by
+      rw [← hbusy, ha.own]
+    obtain ⟨h1, h2, h3, -⟩ := acquire_queued _ x.issuer x.mutex (.flag false) b hf
+    refine ⟨by rw [h1]; rfl, by rw [ha'.own, h3], ?_⟩
+    rw [ha'.mq, h2, ha.mq]
+    simp
+
+/-- **notify_all wakes exactly the waiters of that moment**, after every history: the queue is empty afterwards (other
+condition variables untouched); besides the notifier only waiters of that moment are answered, each with `false` and
+each owning its mutex; and EVERY waiter of that moment either returned that way or sits in the FIFO of its mutex,
+registered, with its `false` result attached. -/
+theorem notify_all_wakes_exactly_current_waiters {w : World} {s : ASt} (hr : Reach w s) (a : Aid) (c : Nat)
+    (hb : s.blk a = none) :
+    ∃ w' o, w.step (.broadcast a c) = .ok (w', o) ∧
+      (w'.conds c).queue = [] ∧ (∀ c', c' ≠ c → (w'.conds c').queue = (w.conds c').queue) ∧
+      (∀ y ∈ o, y = (a, .unit) ∨
+        ∃ x ∈ s.cv c, y = (x.issuer, .flag false) ∧ (w'.mutexes x.mutex).owner = some x.issuer) ∧
+      (∀ x ∈ s.cv c, ((x.issuer, Res.flag false) ∈ o ∧ (w'.mutexes x.mutex).owner = some x.issuer) ∨
+        concM (x.issuer, .flag false) ∈ (w'.mutexes x.mutex).queue) := by
+  obtain ⟨ha, hi⟩ := reach_abs hr
+  have hs : astep s (.notifyAll a c) = .ok ((s.wakeList c (s.cv c)).1, (s.wakeList c (s.cv c)).2 ++ [(a, .unit)]) := by
+    simp [astep, hb]
+  obtain ⟨w', hw, ha'⟩ := sim_step ha hi hs
+  obtain ⟨hc1, hc2⟩ := wakeList_cv c (s.cv c) s rfl
+  refine ⟨w', _, hw, ?_, ?_, ?_, ?_⟩
+  · rw [ha'.cq, hc1]; rfl
+  · intro c' hc; rw [ha'.cq, hc2 c' hc, ha.cq]
+  · intro y hy
+    rcases List.mem_append.mp hy with hy | hy
+    · obtain ⟨x, hx, h1, h2⟩ := wakeList_outs c (s.cv c) s hi rfl y hy
+      exact .inr ⟨x, hx, h1, by rw [ha'.own, h2]⟩
+    · exact .inl (by simpa using hy)
+  · intro x hx
+    rcases wakeList_all c (s.cv c) s hi rfl x hx with h | h
+    · exact .inl ⟨List.mem_append_left _ h.1, by rw [ha'.own, h.2]⟩
+    · right
+      rw [ha'.mq]
+      exact List.mem_map_of_mem h
+
+/-- **notify_all queues the waiters on their mutexes in waiting order**, after every history: the FIFO of every mutex `m`
+becomes its old FIFO followed by the woken waiters that wait with `m`, in the order they were waiting on the condition
+variable (registered, `false` attached) — minus the first of them when `m` was free: that one takes the mutex and
+returns.  With `free_mutex_has_no_waiter` and the FIFO hand-off of C04 this is "every woken waiter re-acquires its mutex
+through the mutex FIFO". -/
+theorem notify_all_mutex_fifo_order {w w' : World} {s : ASt} (hr : Reach w s) (a : Aid) (c : Nat)
+    (hb : s.blk a = none) (o : Outs) (hw : w.step (.broadcast a c) = .ok (w', o)) (m : Nat) :
+    (w'.mutexes m).queue = (w.mutexes m).queue ++
+      (((s.cv c).filter (fun x => decide (x.mutex = m))).map (fun x => concM (x.issuer, .flag false))).drop
+        (if (w.mutexes m).owner = none then 1 else 0) := by
+  obtain ⟨ha, hi⟩ := reach_abs hr
+  have hs : astep s (.notifyAll a c) = .ok ((s.wakeList c (s.cv c)).1, (s.wakeList c (s.cv c)).2 ++ [(a, .unit)]) := by
+    simp [astep, hb]
+  obtain ⟨w1, hw1, ha'⟩ := sim_step ha hi hs
+  have hw1' : w.step (.broadcast a c) = .ok (w1, (s.wakeList c (s.cv c)).2 ++ [(a, .unit)]) := hw1
+  rw [hw] at hw1'
+  simp only [Except.ok.injEq, Prod.mk.injEq] at hw1'
+  rw [hw1'.1, ha'.mq, wakeList_queue, ha.mq, ha.own, List.map_append, List.map_drop, List.map_map]
+  rfl
+
+/-- **the timer event wakes only its own waiter**, after every history: it leaves the queue (the others keep their
+order), and re-acquires its mutex exactly like a notified waiter, with the result `true` (timeout) -/
+theorem timeout_wakes_only_its_waiter {w : World} {s : ASt} (hr : Reach w s) (a : Aid) (c : Nat) (x : AWaiter)
+    (hf : (s.cv c).find? (fun y => y.issuer = a ∧ y.timed) = some x) :
+    ∃ w' o, w.step (.condTimeout a c) = .ok (w', o) ∧
+      (w'.conds c).queue = (eraseW a (s.cv c)).map concW ∧
+      ((w.mutexes x.mutex).owner = none → o = [(a, .flag true)] ∧ (w'.mutexes x.mutex).owner = some a) ∧
+      (∀ b, (w.mutexes x.mutex).owner = some b →
+        o = [] ∧ (w'.mutexes x.mutex).queue = (w.mutexes x.mutex).queue ++ [concM (a, .flag true)]) := by
+  obtain ⟨ha, hi⟩ := reach_abs hr
+  have hs : astep s (.timeout a c) =
+      .ok ((({ s with cv := upd s.cv c (eraseW a (s.cv c)) } : ASt).acquire a x.mutex (.flag true)).1,
+           (({ s with cv := upd s.cv c (eraseW a (s.cv c)) } : ASt).acquire a x.mutex (.flag true)).2) := by
+    simp only [astep, hf]
+    try rfl
+  obtain ⟨w', hw, ha'⟩ := sim_step ha hi hs
+  refine ⟨w', _, hw, ?_, ?_, ?_⟩
+  · rw [ha'.cq, acquire_cv]; simp
+  · intro hfree
+    have hf' : (({ s with cv := upd s.cv c (eraseW a (s.cv c)) } : ASt).mx x.mutex).owner = none := by
+      rw [← hfree, ha.own]
+    obtain ⟨h1, -, h3, -⟩ := acquire_free _ a x.mutex (.flag true) hf'
+    exact ⟨h1, by rw [ha'.own, h3]⟩
+  · intro b hbusy
+    have hf' : (({ s with cv := upd s.cv c (eraseW a (s.cv c)) } : ASt).mx x.mutex).owner = some b := by
+      rw [← hbusy, ha.own]
+    obtain ⟨h1, h2, -, -⟩ := acquire_queued _ a x.mutex (.flag true) b hf'
+    refine ⟨h1, ?_⟩
+    rw [ha'.mq, h2, ha.mq]
+    simp
+
+/-- **Every woken or timed-out waiter returns only after re-acquiring its mutex**, after every history and for every
+event of the domain: whoever is answered by the step while it was blocked — in a condition variable (notified or timed
+out) or in a mutex FIFO (plain `lock`, or a waiter that was re-locking) — is the owner, in the resulting kernel state,
+of the mutex it was waiting for. -/
+theorem wait_returns_holding_mutex_hist {w w' : World} {s : ASt} (hr : Reach w s) (e : CEv) (o : Outs)
+    (hwf : WellFormed s e) (hw : w.step e.toEv = .ok (w', o)) :
+    ∀ y ∈ o, ∀ m, s.waitsFor y.1 = some m → (w'.mutexes m).owner = some y.1 := by
+  obtain ⟨ha, hi⟩ := reach_abs hr
+  obtain ⟨s', hs, ha'⟩ := sim_step_conv ha hi hwf hw
+  intro y hy m hm
+  rw [ha'.own]
+  exact awake_owner hi hs y hy m hm
+
+/-- through the mutex FIFO: after every history a free mutex has no blocked locker — so a waiter that finds its mutex
+free and takes it overtakes nobody; a waiter that finds it busy queues at the tail (`notify_one_wakes_exactly_head`,
+`timeout_wakes_only_its_waiter`) and is served by the FIFO hand-off of C04 -/
+theorem free_mutex_has_no_waiter {w : World} {s : ASt} (hr : Reach w s) (m : Nat)
+    (h : (w.mutexes m).owner = none) : (w.mutexes m).queue = [] := by
+  obtain ⟨ha, hi⟩ := reach_abs hr
+  rw [ha.mq, hi.free m (by rw [← ha.own]; exact h)]
+  rfl
+
+/-- in a reached state the queues of the implementation are exactly the abstract FIFOs, every acquisition registered:
+no actor is in two queues, no queue has a duplicate, no waiter owns the mutex it waits with -/
+theorem reached_state_shape {w : World} {s : ASt} (hr : Reach w s) :
+    (∀ c, (w.conds c).queue = (s.cv c).map concW) ∧ (∀ m, (w.mutexes m).queue = (s.mx m).queue.map concM) ∧
+    (∀ c, ((s.cv c).map (·.issuer)).Nodup) ∧ (∀ c x, x ∈ s.cv c → (w.mutexes x.mutex).owner ≠ some x.issuer) := by
+  obtain ⟨ha, hi⟩ := reach_abs hr
+  exact ⟨ha.cq, ha.mq, hi.cvNd, fun c x hx => by rw [ha.own]; exact hi.own c x hx⟩
+
+/-! ### non-vacuity of Part 2 -/
+
+/-- two waiters (the second timed) while actor 3 holds the mutex, notify_all, unlock: the abstract machine accepts the
+history (so `Reach` is inhabited at each prefix and the hypotheses `blk a = none` hold for the notifier), both waiters
+queue on the mutex in waiting order, the first returns at the hand-off … -/
+example : aobserve [.lock 1 0, .wait 1 0 0 false, .lock 2 0, .wait 2 0 0 true, .lock 3 0, .notifyAll 0 0, .unlock 3 0] 0 0 =
+    some ([], some 1, [2], [(1, .unit), (2, .unit), (3, .unit), (0, .unit), (1, .flag false), (3, .unit)]) := by
+  decide
+
+/-- … and the implementation model gives the same observation on the corresponding kernel events -/
+example : observe ([.lock 1 0, .wait 1 0 0 false, .lock 2 0, .wait 2 0 0 true, .lock 3 0, .notifyAll 0 0,
+      .unlock 3 0].map CEv.toEv) 0 0 =
+    aobserve [.lock 1 0, .wait 1 0 0 false, .lock 2 0, .wait 2 0 0 true, .lock 3 0, .notifyAll 0 0, .unlock 3 0] 0 0 := by
+  decide
+
+/-- a timed waiter whose timer fires while the mutex is held: it queues on the mutex; it returns `true` (timeout) only
+at the hand-off, owning the mutex -/
+example : aobserve [.lock 1 0, .wait 1 0 0 true, .lock 2 0, .timeout 1 0, .unlock 2 0] 0 0 =
+    some ([], some 1, [], [(1, .unit), (2, .unit), (1, .flag true), (2, .unit)]) := by decide
+
+/-- events outside the domain are refused by the abstract machine: a blocked actor calling, a re-lock by the owner -/
+example : (aobserve [.lock 1 0, .wait 1 0 0 false, .notifyOne 1 0] 0 0).isNone = true ∧
+    (aobserve [.lock 1 0, .lock 1 0] 0 0).isNone = true := by decide
 
 end SgVerif.C06
